@@ -1,5 +1,5 @@
 //! C19 Model values: equality, ordering and hashing are mutually coherent.
-use crate::gen::*;
+use vgen::*;
 use proptest::prelude::*;
 use serde::{Deserialize, Serialize};
 use std::cmp::Ordering;
